@@ -28,7 +28,7 @@ def run(keys, opts=None, tier='quick', verbose=True):
         sts = [r['status'] for _, r in lst]
         exp = lst[0][0].expect_sat
         if exp:
-            ok = all(s != 'unsat' for s in sts)
+            ok = any(s != 'unsat' for s in sts)      # vacuous: NO path of the function is feasible under the assumed hypotheses
             verdict = 'canary-ok' if ok else 'VACUOUS'
         else:
             ok = all(s == 'unsat' for s in sts)
